@@ -635,10 +635,10 @@ class TrigTime:
             skip = True
             if match1[1] in cls.dow2int:
                 dow = cls.dow2int[match1[1]]
-                if dow >= (now.isoweekday() % 7):
-                    day_offset = dow - (now.isoweekday() % 7)
-                else:
-                    day_offset = 7 + dow - (now.isoweekday() % 7)
+                # the first such day of the week on or after today (after a positive day_offset:
+                # on or after that many days from today, ie, next week's once today's time has passed)
+                day_offset = max(day_offset, 0)
+                day_offset += (dow - (now.isoweekday() + day_offset)) % 7
                 fixed_date = True
             elif match1[1] == "today":
                 day_offset = 0
